@@ -4,6 +4,7 @@ import (
 	"context"
 	"errors"
 	"fmt"
+	"runtime"
 	"time"
 
 	"github.com/joeycumines/go-bigbuff/internal/v/vrt"
@@ -58,16 +59,21 @@ func rangeEnum(maxIter int) func() {
 		}
 		defer cancel()
 		s := &scriptConsumer{}
-		func() {
+		done := make(chan struct{})
+		go func() { // in its own goroutine, so that the callback may also end it with runtime.Goexit
+			defer close(done)
+			returned := false
 			defer func() {
 				if r := recover(); r != nil {
 					vrt.Log("ret", "panic", fmt.Sprint(r))
+				} else if !returned {
+					vrt.Log("ret", "goexit")
 				}
 			}()
 			err := Range(ctx, s, func(index int, value interface{}) bool {
-				k := 3
+				k := 4
 				if ctx != nil {
-					k = 4
+					k = 5
 				}
 				if index+1 >= maxIter {
 					vrt.Log("fn", index, tok(value), "false(horizon)")
@@ -83,14 +89,20 @@ func rangeEnum(maxIter int) func() {
 				case 2:
 					vrt.Log("fn", index, tok(value), "panic")
 					panic("scripted panic")
+				case 3:
+					vrt.Log("fn", index, tok(value), "goexit")
+					runtime.Goexit()
+					return true
 				default:
 					vrt.Log("fn", index, tok(value), "true+cancel")
 					cancel()
 					return true
 				}
 			})
+			returned = true
 			vrt.Log("ret", "err", errStr(err))
 		}()
+		<-done
 	}
 }
 
@@ -249,7 +261,7 @@ func (c bufC) remaining(h bufH) int {
 
 func init() {
 	vrt.Register(&vrt.Scenario{Name: "R-enum", Props: []string{"C02"}, Quick: 0, Thorough: 0,
-		Desc: "package Range over a scripted Consumer: every sequence of <=4 iterations of {Get ok/err} x {fn true/false/panic/true+cancel} x {Commit ok/err} x ctx {nil, live, pre-cancelled} against a reference loop",
+		Desc: "package Range over a scripted Consumer: every sequence of <=4 iterations of {Get ok/err} x {fn true/false/panic/Goexit/true+cancel} x {Commit ok/err} x ctx {nil, live, pre-cancelled} against a reference loop",
 		Run:  rangeEnum(4), Check: rangeEnumCheck})
 	vrt.Register(&vrt.Scenario{Name: "CL-enum", Props: []string{"C03"}, Quick: 0, Thorough: 0,
 		Desc: "DefaultCleaner for every size 0..5 and offsets list of length <=3 over -2..7; FixedBufferCleaner(max,target) for max,target in 0..6 on the same inputs, against the specification",
